@@ -2452,7 +2452,7 @@ class Converter:
             for record in self.records
             if any(prefix in prefixes for prefix in record._all_prefixes)
         ]
-        return Converter(records)
+        return Converter(records, delimiter=self.delimiter)
 
 
 def _eq(a: str, b: str, case_sensitive: bool) -> bool:
